@@ -24,6 +24,10 @@ def models():
         'delayed': spec('delayed', [A, B, C], {A: 4, B: 1, C: 0}, drx),
         'rule': spec('rule', [B, A, X], {A: 4, B: 1, X: 0}, rx, rules=rule),
         'rule+rejected-edits': dict(spec('rule+rejected-edits', [B, A, X], {A: 4, B: 1, X: 0}, rx, rules=rule), rejected=True),
+        # a parameter-assigning and a species-assigning rule that read the cell volume (1 where no volume is in play)
+        'rule-reads-volume': spec('rule-reads-volume', [A, X, B], {A: 4, B: 1, X: 0}, rx, params={'P': 0.0},
+                                  rules=[dict(type='assignment', target='P', rhs=('+', ('*', ('num', 3), ('vol',)), ('num', 1)), freq='repeated'),
+                                         dict(type='assignment', target=X, rhs=('+', ('*', ('num', 2), ID('P')), ('*', ID(A), ('vol',))), freq='repeated')]),
         'rule+delayed': spec('rule+delayed', [C, A, B, X], {A: 4, B: 1, C: 0, X: 0}, drx, rules=rule),
         'rule-at-start': spec('rule-at-start', [A, X, B], {A: 4, B: 1, X: 0}, rx,
                               rules=[dict(type='assignment', target=X, rhs=('+', ('*', ('num', 3), ID(A)), ('num', 5)), freq='start')]),
@@ -164,7 +168,8 @@ def run_one(c, opt):
     elif nrows:
         x = {s: float(sp['x0'][s]) for s in sp['species']}
         P = dict(sp['params'])
-        RR.apply(sp['rules'], x, P, 0.0, 0.25, True)
+        v_used = {'num': 2.0, 'int2': 2.0, 'int3': 3.0, 'obj': 1.5}.get(opt['volume'], 1.0) if uses_volume else 1.0
+        RR.apply(sp['rules'], x, P, 0.0, 0.25, True, v_used)
         want = [x[s] for s in species]
         if any(abs(a - b) > 1e-9 for a, b in zip(data[0], want)):
             bad('first-row', 'first row %s is not the initial condition with rules applied %s (%s)' % (list(data[0]), want, species))
@@ -181,8 +186,8 @@ def run(ctx):
     lat = lattice(ctx.tier)
     ctx.bounds = dict(option_combinations=len(lat))
     ctx.rule = ('E3/product lattice, exhaustive: {stochastic} x {delay None/False/True} x {safe} x {volume False/True/number (float 2.0, int 2, int 3)/Volume object/'
-                'initialised growing volume (thorough: + dividing)} x {data frame, result object} x {Model, pre-built interface} x 8 models '
-                '(twelve species in a cycle, plain, one with a rule and rejected create_rule / create_reaction calls after it, delayed reaction, repeated assignment rule, both, a rule due at the start spelled "start" and "0") x grid lengths; every call is made on the real py_simulate_model under a '
+                'initialised growing volume (thorough: + dividing)} x {data frame, result object} x {Model, pre-built interface} x 9 models '
+                '(twelve species in a cycle, plain, one with a rule and rejected create_rule / create_reaction calls after it, one whose rules read the volume, delayed reaction, repeated assignment rule, both, a rule due at the start spelled "start" and "0") x grid lengths; every call is made on the real py_simulate_model under a '
                 'fixed seed, and for one grid length the same call is repeated on the same Model / interface. Oracle: a returned result has the requested time axis (prefix if divided), one column per species in model '
                 'order (+volume when a volume is used; a constant volume given as a number or Volume object is reported with that value), first row = initial condition with rules applied; a refusal must be a ValueError/'
                 'TypeError naming an option (or NotImplementedError raised by the entry point itself). states = transitions = calls; '
